@@ -145,7 +145,7 @@ PINNED = {
     'PrivKey.encrypt_keyblob': 'b02856ec5aa4',        # a3ce830: IV / salt drawn into a String2Key built on the side; same calls, order, sizes
     'ECDHCipherText.encrypt': '74f84571eafe',
     'PGPMessage.encrypt': '9fd8589aa954',
-    'PGPKey.encrypt': 'cc46eba4b9a9',
+    'PGPKey.encrypt': 'cc46eba4b9a9',                 # 1d6dbd1: which identity's preferences are read (user attribute when no user id); no draw moved
 }
 
 
